@@ -13,6 +13,18 @@
    over 1-4 sorted partitions (with fetch), PartialSortExec, SortExec over sorted input (limit path),
    PartitionedTopKExec (ROW_NUMBER / RANK / DENSE_RANK); input batch sizes {1,2,3,8192}, session batch sizes
    {1,2,3,8192}; key columns as Int32/Int64, Float64/Float32, Utf8/Utf8View/Dictionary.
+   Spill lanes built so that every path of the multi-level merge runs by construction:
+   * spill_merge: sorted runs (sub-sequences of the specification's sorted permutation) are written as spill
+     files through SpillManager with 1/3/5/7/33/1025/all rows per batch (odd and even, single- and multi-batch
+     runs, up to 2051 rows) and merged by StreamingMergeBuilder (MultiLevelMergeBuilder) under budgets swept
+     from 1.5x to 6x the measured memory of the largest spilled batch in steps of 0.25 on GreedyMemoryPool
+     and FairSpillPool (refusal < 2x, re-spill with halved batches 2x..4x, direct >= 4x); 3-5 runs with
+     max_spill_merge_fan_in 0/2/3, optionally one run as an in-memory stream, with fetch.  The path that ran is
+     measured from the number of spill files written during the merge.
+   * sort_sweep: SortExec under budgets of 15%..75% of what the sorter reserves for its whole input, odd input
+     batch sizes, batch_size 8192 (each spilled run is one big batch) and 2/3, fan-in limits.
+   A tier in which the halving path (with odd-sized batches), the reduced-fan-in path or the direct path never
+   ran is a ToolError.
 3. Oracle: key sequence of the output = key sequence of the first k rows of the specification's sorted
    permutation; output is a sub-bag of the input (row ids); payload column still attached to its row.
    ResourcesExhausted under a tight budget is accepted.
@@ -20,9 +32,9 @@
 import json, os
 from common import *
 
-QUICK = dict(NSMALL=560, NBIG=50, NEDGE=40)
-THOROUGH = dict(NSMALL=6000, NBIG=500, NEDGE=300)
-OPS = ["sort", "sort_pp_spm", "spm", "partial", "topk_prefix", "sorted_input", "sort_coalesced_batches",
+QUICK = dict(NSMALL=300, NBIG=30, NEDGE=24, NMED=10, NREV=30, NTIE=30, NLARGE=3)
+THOROUGH = dict(NSMALL=3000, NBIG=300, NEDGE=150, NMED=60, NREV=300, NTIE=300, NLARGE=16)
+OPS = ["spill_merge", "sort_sweep", "sort", "sort_pp_spm", "spm", "partial", "topk_prefix", "sorted_input", "sort_coalesced_batches",
        "ptk_rownumber", "ptk_rank", "ptk_denserank"]
 
 
@@ -85,7 +97,7 @@ def run(ctx):
         sys.stderr.write(r.out[-3000:])
         raise ToolError("TLC failed on ops/SortGen (specification-level)")
     cases = tlc_cases(r.out)
-    if len(cases) < 0.8 * sum(consts.values()):
+    if len(cases) < 0.7 * sum(consts.values()):
         raise ToolError(f"SortGen produced only {len(cases)} cases")
     # vacuity of the generator
     kinds = {t for c in cases for t in c["types"]}
@@ -112,6 +124,15 @@ def run(ctx):
     spilled = {k[11:]: v for k, v in st.items() if k.startswith("spilled_op:")}
     if sum(spilled.values()) == 0:
         raise ToolError("vacuity: no evaluation spilled")
+    # the multi-level merge must have taken every one of its paths (measured from spill-file counts):
+    paths = {k[5:]: v for k, v in st.items() if k.startswith("path:")}
+    for need in ("merge:direct", "merge:halving", "merge:halving_with_odd_batches", "merge:reduced_fan_in",
+                 "merge:multi_pass_or_halving", "sweep:spill_rewritten", "sweep:spill_single_pass", "sweep:in_memory"):
+        if paths.get(need, 0) == 0:
+            raise ToolError(f"vacuity: merge path '{need}' never ran in this tier (paths: {paths})")
+    secs = {c["sec"] for c in cases}
+    if not {"S", "B", "E", "M", "W", "T", "L"} <= secs:
+        raise ToolError(f"vacuity: generator sections missing: {secs}")
     report(ctx, res)
     write_evidence(ctx, "exploration", {
         "evaluations": res["evaluations"],
@@ -123,7 +144,9 @@ def run(ctx):
         "samples": res["samples"][:2],
         "tlc_cases": len(cases), "tlc_distinct_states": r.distinct, "tlc_wall_s": round(r.wall, 1),
         "cases_with_ties": ties,
-        "cases_by_section": {s: sum(1 for c in cases if c["sec"] == s) for s in ("S", "B", "E")},
+        "cases_by_section": {s: sum(1 for c in cases if c["sec"] == s) for s in ("S", "B", "E", "M", "W", "T", "L")},
+        "merge_paths_taken": paths,
+        "skipped": {k[8:]: v for k, v in st.items() if k.startswith("skipped:")},
         "evaluations_by_path": ops,
         "evaluations_with_fetch_matching": st.get("with_fetch", 0),
         "tight_memory_evaluations": st.get("tight_memory", 0),
@@ -137,4 +160,6 @@ def run(ctx):
         "merge inputs are the specification's sorted permutation split by the TLC-chosen assignment (no driver-side comparator)",
         "binding demonstrated during development: swapping two rows / dropping a row of `sorted` in the case file is reported as a key-sequence difference",
         "the dynamic-filter TopK over a filtering source and SQL-level ORDER BY are not driven here (the TopK operator updates its filter but the in-memory source ignores it)",
+        "large cases (514..2051 rows, one int key) take their sorted order from a closed form in SortGen.tla (checked by TLC: sorted, bijection on row ids) instead of the insertion sort",
+        "a streaming merge of a single run is not judged: StreamingMergeBuilder hands a lone spill file / stream through unchanged, ignoring fetch (its callers special-case one input)",
     ])
